@@ -130,6 +130,11 @@ def plss_preprocess(
     # cleaned up during this process (so we can raise warning flags).
     orig_twprge_list = find_twprge(txt)
 
+    # Collapse runs of whitespace up front (they get collapsed at the end
+    # regardless), so that the broad preprocessing patterns do not have
+    # to backtrack through them.
+    txt = reduce_whitespace(txt)
+
     # Iteratively run each of the preprocess regexes over the text,
     # swapping in the cleaned up Twp/Rge every time.
     pp_regexes = SCRUBBER_REGEXES
